@@ -19,7 +19,8 @@ Fixpoint sane (f : fd) : bool :=
   | _ => true
   end.
 
-(* a variable-size group must have a non-zero block size (else the calculator divides by zero) *)
+(* a variable-size group with a non-zero block size (before fixes/02 the calculator divided by zero
+   otherwise; no longer part of wf_desc, still checked of the shipped data) *)
 Definition nonzero_block (f : fd) : bool :=
   match f with
   | FGroup _ _ _ => fixed_size f || negb (block_size f =? 0)
@@ -30,7 +31,7 @@ Definition nonzero_block (f : fd) : bool :=
    variable-size fields); it is therefore proved of the shipped data (c14_shipped), together with
    `consistent`, rather than assumed. *)
 Definition wf_desc (fs : list fd) : bool :=
-  forallb sane fs && forallb nonzero_block fs && (sumN (map fixed_part fs) <? 4294967296).
+  forallb sane fs && (sumN (map fixed_part fs) <? 4294967296).
 
 (* ---------------------------------------------------------------- layout *)
 Inductive atom :=
@@ -211,3 +212,14 @@ Fixpoint add_ids (ids : list N) (new : list N) : list N :=
   | m :: r => if existsb (N.eqb m) ids then add_ids ids r else add_ids (ids ++ [m]) r
   end.
 Definition override_ids (ids : list N) (os : list ovr_entry) : list N := add_ids ids (map ovr_man os).
+
+(* ---------------------------------------------------------------- what the loader enforces on a store
+   PidStoreLoader::GetPidList with validate: within a manufacturer (or the ESTA block) no PID value and
+   no PID name twice; an ESTA PID value is not strictly inside (MANUFACTURER_PID_MIN, MANUFACTURER_PID_MAX).
+   (Frame formats: DescriptorConsistencyChecker = `consistent`.) *)
+Definition keq_value (a b : pid_entry) : bool := (fst (fst a) =? fst (fst b)) && (snd (fst a) =? snd (fst b)).
+Definition keq_name (a b : pid_entry) : bool := (fst (fst a) =? fst (fst b)) && list_eqb (snd a) (snd b).
+Definition loader_rules (pid_min pid_max : N) (tbl : list pid_entry) : bool :=
+  nodupb keq_value tbl && nodupb keq_name tbl &&
+  forallb (fun e => negb (fst (fst e) =? 0) ||
+                    negb ((pid_min <? snd (fst e)) && (snd (fst e) <? pid_max))) tbl.
